@@ -17,6 +17,8 @@ R-C01-5  (construction-site table) range(..)/slice(..): argument 1 = from; argum
          (Python's range and slice both exclude their end), the test being the node's own `inclusive` flag; argument 3 = step,
          default literal 1; the parser sets `inclusive` from the token (`..=`/`::=` true, `..`/`::` false).
 R-C01-6  (syntax) interpolated strings stay interpolated: Str with expressions -> FStr -> a template opening with `f"`; else Str.
+R-C01-7  (site census) the desugaring state: setters change one field; return/assignment requests only at the reviewed sites.
+R-C01-8  (docs vs lexer) a sign the documented number grammar allows inside a literal is consumed by the lexer's number loop.
 R-C10-*  (reused) printing never changes the grouping of operators.   R-C11-1 (reused) the annotate flag only reaches annotations.
 """
 import re
@@ -61,6 +63,7 @@ def run(chk, facts):
     _ranges(chk, facts)
     _fstr(chk, facts)
     _state_flags(chk, facts)
+    _number_grammar(chk, facts)
     # reuse: grouping and annotate-independence
     from . import c10, c11
     c10.run(chk, facts)
@@ -584,3 +587,39 @@ def _state_flags(chk, facts):
                "convert_node no longer saves and resets both pending flags before converting the children", facts.loc_of(cn))
     except AnchorError as e:
         chk.anchor_fail("R-C01-7", e)
+
+
+# ------------------------------------------------------------------------------------------------------------------------
+def _number_grammar(chk, facts):
+    """R-C01-8: the documented number forms are one token. The grammar (docs/spec/grammar.md) allows a sign in the exponent of an
+    E-number; if the lexer stopped before it, `1E-3` would still parse - as the subtraction `1E - 3` - and mean something else."""
+    import os
+    chk.rule("R-C01-8", "a sign that the documented number grammar allows inside a literal is consumed by the lexer's number loop")
+    try:
+        g = facts.repo_file("docs/spec/grammar.md")
+    except OSError as e:
+        chk.anchor_fail("R-C01-8", f"docs/spec/grammar.md: {e}")
+        return
+    m = re.search(r"e-notation\s*::=\s*(.+)", g)
+    if not m:
+        chk.anchor_fail("R-C01-8", "no `e-notation` production in docs/spec/grammar.md")
+        return
+    signed = re.search(r'\[\s*"-"\s*\]', m.group(1)) is not None
+    try:
+        tk = facts.syn.one_fn("into_tokens", mod="parse::lex::tokenize")
+    except AnchorError as e:
+        chk.anchor_fail("R-C01-8", e)
+        return
+    arm = None
+    for n in walk(tk["body"]):
+        if n.get("k") == "match":
+            for a in n["arms"]:
+                if a.get("guard") and "e_num" in src(a["guard"]) and any(alt.get("k") == "plit" and alt["e"].get("v") == "-" for alt in pat_alternatives(a["pat"])):
+                    arm = a
+    if not signed:
+        chk.ob("R-C01-8", "exponent-sign", True, "the documented grammar has no sign inside number literals")
+        return
+    ok = arm is not None and "exp.push(c)" in src(arm["body"]).replace(" ", "") and "it.next()" in src(arm["body"]).replace(" ", "")
+    chk.ob("R-C01-8", "exponent-sign", ok, "`E-` : the sign of the exponent is pushed into the exponent and consumed" if ok else
+           "the grammar documents `e-notation ::= .. \"E\" [ \"-\" ] integer` but the number loop of the lexer has no arm that takes `-` into the exponent: "
+           "`1E-3` is lexed as `1E`, `-`, `3` and emitted as `(1 * 10 ** 0) - 3`", facts.loc_of(tk))
